@@ -117,6 +117,17 @@ def gen_actor(rng, aid, ntrees, others):
                     'key': 'added-later', 'value': 1})
         ops.append({'op': 'new_tree', 'tree': tn0 + '.fresh', 'attrs': {}})
 
+    if rng.chance(0.06) and others:
+        tn0 = names[0]
+        ops.append({'op': 'set_option', 'tree': tn0,
+                    'path': rng.choice([[], [0]]),
+                    'sec': rng.choice(['preamble', 'self', 'meta']),
+                    'key': rng.choice(['indent', 'encoding', 'mimetype']),
+                    'value': None})
+        ops.append({'op': rng.choice(['eq', 'ne']), 'a': tn0,
+                    'b': rng.choice(others)})
+        ops.append({'op': 'eq', 'a': tn0, 'b': tn0})
+
     if rng.chance(0.04):
         # a preamble / diff beyond 64 KiB with no line endings declared,
         # then serialised (observers must leave it that way)
